@@ -111,7 +111,10 @@ class RiscvParser(Parser):
             (
                 pp.Combine("0x" + pp.Word(pp.hexnums))
                 | pp.Combine("0b" + pp.Word("01"))
-                | pp.Word(pp.nums)
+                # only decimal literals that int(..., base=0) accepts: no leading zeros,
+                # at most 4300 digits (CPython's limit for int <-> str conversions)
+                | pp.Word("0")
+                | pp.Word("123456789", pp.nums, max=4300)
             )
         )
     )
@@ -120,7 +123,7 @@ class RiscvParser(Parser):
         _PLUS + pp.Combine("0x" + pp.Word(pp.hexnums))("offset")
     )
 
-    _pattern_index = pp.Combine(_Bracket_L + pp.Word(pp.nums) + _Bracket_R)
+    _pattern_index = pp.Combine(_Bracket_L + pp.Word(pp.nums, max=4300) + _Bracket_R)
 
     _pattern_variable = pp.Combine(
         _pattern_label("name") + pp.Optional(_pattern_index)("index")
@@ -144,7 +147,7 @@ class RiscvParser(Parser):
         _pattern_label("name")
         + _D_COL
         + pp.Group(_DOT + pp.Literal("zero")("type"))("type")
-        + pp.Word(pp.nums)("value")
+        + pp.Word(pp.nums, max=4300)("value")
     )
 
     # R-Types
